@@ -36,3 +36,8 @@ def generate(rng, tier):
 
 def nontrivial(case):
     return case.count("def ") + case.count("add ") >= 3
+
+
+def shrink(exe, case, impl, model, msg):
+    import vlib
+    return vlib.shrink_history(exe, ENGINE, case, "automata")
